@@ -78,7 +78,44 @@ var fnList = []fnSpec{
 	stackFn("OverN", nil, true, "C05", "C08"),
 	stackFn("PickN", nil, true, "C05", "C08"),
 	stackFn("RollN", nil, true, "C05", "C08"),
+	// the opcode handlers (operations.go): the thread fields a handler reads (Fields) and writes (State)
+	opFn("abstractVerify", nil, fnDS),
+	opFn("opcodeDrop", nil, fnDS, "C08"), opFn("opcodeDup", nil, fnDS, "C08"), opFn("opcodeNip", nil, fnDS, "C08"),
+	opFn("opcodeOver", nil, fnDS, "C08"), opFn("opcodePick", fnOpNum, fnDS, "C08"), opFn("opcodeRoll", fnOpNum, fnDS, "C08"),
+	opFn("opcodeRot", nil, fnDS, "C08"), opFn("opcodeSwap", nil, fnDS, "C08"), opFn("opcodeTuck", nil, fnDS, "C08"),
+	opFn("opcode2Drop", nil, fnDS, "C08"), opFn("opcode2Dup", nil, fnDS, "C08"), opFn("opcode3Dup", nil, fnDS, "C08"),
+	opFn("opcode2Over", nil, fnDS, "C08"), opFn("opcode2Rot", nil, fnDS, "C08"), opFn("opcode2Swap", nil, fnDS, "C08"),
+	opFn("opcodeIfDup", nil, fnDS, "C08"), opFn("opcodeDepth", nil, fnDS, "C08"),
+	opFn("opcodeToAltStack", nil, fnDSAS, "C08"), opFn("opcodeFromAltStack", nil, fnDSAS, "C08"),
+	opFn("opcodeSize", nil, fnDS), opFn("opcodeEqual", nil, fnDS), opFn("opcodeEqualVerify", nil, fnDS), opFn("opcodeVerify", nil, fnDS),
+	opFn("opcode1Add", fnOpNum, fnDS), opFn("opcode1Sub", fnOpNum, fnDS), opFn("opcodeNegate", fnOpNum, fnDS), opFn("opcodeAbs", fnOpNum, fnDS),
+	opFn("opcodeNot", fnOpNum, fnDS), opFn("opcode0NotEqual", fnOpNum, fnDS),
+	opFn("opcodeAdd", fnOpNum, fnDS), opFn("opcodeSub", fnOpNum, fnDS), opFn("opcodeMul", fnOpNum, fnDS), opFn("opcodeDiv", fnOpNum, fnDS), opFn("opcodeMod", fnOpNum, fnDS),
+	opFn("opcodeBoolAnd", fnOpNum, fnDS), opFn("opcodeBoolOr", fnOpNum, fnDS),
+	opFn("opcodeNumEqual", fnOpNum, fnDS), opFn("opcodeNumEqualVerify", fnOpNum, fnDS), opFn("opcodeNumNotEqual", fnOpNum, fnDS),
+	opFn("opcodeLessThan", fnOpNum, fnDS), opFn("opcodeGreaterThan", fnOpNum, fnDS),
+	opFn("opcodeLessThanOrEqual", fnOpNum, fnDS), opFn("opcodeGreaterThanOrEqual", fnOpNum, fnDS),
+	opFn("opcodeMin", fnOpNum, fnDS), opFn("opcodeMax", fnOpNum, fnDS), opFn("opcodeWithin", fnOpNum, fnDS),
+	opFn("opcodeCat", []string{"t.cfg"}, fnDS), opFn("opcodeSplit", fnOpNum, fnDS),
+	opFn("opcodeNum2bin", append([]string{"t.cfg", "t.afterGenesis"}, fnOpNum...), fnDS),
+	opFn("opcodeBin2num", []string{"t.cfg"}, fnDS),
+	opFn("opcodeInvert", nil, fnDS), opFn("opcodeAnd", nil, fnDS), opFn("opcodeOr", nil, fnDS), opFn("opcodeXor", nil, fnDS),
+	opFn("shiftCount", nil, nil), opFn("opcodeLShift", fnOpNum, fnDS), opFn("opcodeRShift", fnOpNum, fnDS),
 }
+
+var fnDS = []string{"t.dstack.stk"}
+var fnDSAS = []string{"t.dstack.stk", "t.astack.stk"}
+var fnOpNum = []string{"t.dstack.maxNumLength", "t.dstack.verifyMinimalData", "t.dstack.afterGenesis"}
+
+// opFn: a handler (or helper) of operations.go; C05 plus the given properties.
+func opFn(name string, fields, state []string, props ...string) fnSpec {
+	return fnSpec{Coq: name, File: "bscript/interpreter/operations.go", Name: name, Fields: fields, State: state,
+		Props: append([]string{"C05"}, props...), NoProof: fnOpNoProof[name]}
+}
+
+// printed, but no equivalence proof has been written yet (helpers are proved through their callers)
+var fnOpNoProof = map[string]bool{"abstractVerify": true, "shiftCount": true, "opcodeCat": true, "opcodeSplit": true, "opcodeNum2bin": true,
+	"opcodeBin2num": true, "opcodeInvert": true, "opcodeAnd": true, "opcodeOr": true, "opcodeXor": true, "opcodeLShift": true, "opcodeRShift": true}
 
 var fnNumFields = []string{"s.maxNumLength", "s.verifyMinimalData", "s.afterGenesis"}
 
